@@ -82,6 +82,21 @@ fn run(line: &str) -> String {
         "serde.sk_de" => match bincode::deserialize::<SigningKey>(&hex(t[1])) { Ok(v) => hx(&v.to_bytes()), Err(_) => "ERR".into() },
         "serde.sig_ser" => hx(&bincode::serialize(&Signature::from_bytes(&a64(t[1]))).unwrap()),
         "serde.sig_de" => match bincode::deserialize::<Signature>(&hex(t[1])) { Ok(v) => hx(&v.to_bytes()), Err(_) => "ERR".into() },
+        // the self-describing route (serde_json: a JSON array of numbers reaches `visit_seq`, which bincode never does for `deserialize_bytes` types)
+        "serde.json_de" => {
+            let js = format!("[{}]", hex(t[2]).iter().map(|x| x.to_string()).collect::<Vec<_>>().join(","));
+            match t[1] {
+                "vk" => match serde_json::from_str::<VerifyingKey>(&js) { Ok(v) => hx(v.as_bytes()), Err(_) => "ERR".into() },
+                "sk" => match serde_json::from_str::<SigningKey>(&js) { Ok(v) => hx(&v.to_bytes()), Err(_) => "ERR".into() },
+                "ed" => match serde_json::from_str::<EdwardsPoint>(&js) { Ok(p) => hx(p.compress().as_bytes()), Err(_) => "ERR".into() },
+                "ris" => match serde_json::from_str::<RistrettoPoint>(&js) { Ok(p) => hx(p.compress().as_bytes()), Err(_) => "ERR".into() },
+                "cey" => match serde_json::from_str::<CompressedEdwardsY>(&js) { Ok(p) => hx(p.as_bytes()), Err(_) => "ERR".into() },
+                "cris" => match serde_json::from_str::<CompressedRistretto>(&js) { Ok(p) => hx(p.as_bytes()), Err(_) => "ERR".into() },
+                "mont" => match serde_json::from_str::<MontgomeryPoint>(&js) { Ok(p) => hx(p.as_bytes()), Err(_) => "ERR".into() },
+                "scalar" => match serde_json::from_str::<Scalar>(&js) { Ok(p) => hx(p.as_bytes()), Err(_) => "ERR".into() },
+                _ => "UNKNOWN".into(),
+            }
+        }
         "serde.xpk_rt" => { let pk = x25519_dalek::PublicKey::from(a32(t[1])); let b = bincode::serialize(&pk).unwrap(); let q: x25519_dalek::PublicKey = bincode::deserialize(&b).unwrap(); format!("{} {}", hx(&b), hx(q.as_bytes())) }
         "sc.from_canonical" => { let r = Scalar::from_canonical_bytes(a32(t[1])); if bool::from(r.is_some()) { hx(r.unwrap().as_bytes()) } else { "NONE".into() } }
         "sc.from_bits" => hx(sc_bits(t[1]).as_bytes()),
